@@ -6,11 +6,11 @@ VERIF = os.path.dirname(os.path.dirname(os.path.abspath(__file__)))
 
 TB = ("TLC 1.8 and the CommunityModules; the harness's projection of real objects through the public parent/children "
       "attributes, its label table keyed by id(), JSON equality and the small trusted renderers (segment tokens -> text); "
-      "bounded model sizes (see evidence.coverage.configs); hooks observe and raise but do not mutate the tree; "
+      "bounded model sizes (see evidence.coverage.configs); hooks observe and raise, or (MC_OpsRe, 3-4 nodes) make one call `m.parent = w` themselves; "
       "CPython's json / pickle / copy / re are taken as given")
 
 CLAIMS = {
-    "C01": ("spec NodeOps (small-step interpreter of the mutators with hook-fault plans) + TLC invariants; every big-step transition replayed into 6 class families x both assertion settings; observations judged by TLC (TraceOps); tlc -simulate histories (MC_OpsSim) replayed as chains of calls on the same live objects",
+    "C01": ("spec NodeOps (small-step interpreter of the mutators with hook-fault plans) + TLC invariants; every big-step transition replayed into 6 class families x both assertion settings; observations judged by TLC (TraceOps); tlc -simulate histories (MC_OpsSim) replayed as chains of calls on the same live objects; re-entrant hooks (MC_OpsRe: every hook invocation of every call makes every call m.parent = w; Thm_Re; judge TraceOpsRe)",
             "Exhaustive within bounds: all forests over N<=4 (5 thorough) nodes, all calls, every hook-fault position; WellFormed is a TLC invariant of the model and is evaluated by TLC on every observed post-state and hook snapshot that differs from the model.", "6/C01"),
     "C02": ("declarative IdealEffect/MustRefuse (NodeOpsProps) checked against the interpreter by TLC (Thm_C02); all fault-free transitions replayed; differing observations judged by TLC",
             "Exhaustive within bounds over forests, node/target pairs and children sequences incl. repeats, self, ancestors, descendants, non-node and non-iterable arguments, constructors.", "6/C02"),
@@ -34,10 +34,10 @@ CLAIMS = {
     "C13": ("as C12 for MermaidExporter (no deviation after the maxlevel=0 fix)", "Exhaustive over trees <= 4 (5) nodes x all stop sets x all filter sets x maxlevel.", "6/C13"),
     "C14": ("FindAll/Find definitions over C06's VisitPre; vectors through anytree.search and anytree.cachedsearch; judged relative to observed PreOrderIter", "Exhaustive over forests <= 4 (5) nodes, all count bounds, all attribute assignments.", "6/C14"),
     "C15": ("Walk definition + Lem_Walk (simple path, mirror) checked by TLC; all ordered pairs replayed", "Exhaustive over all forests <= 6 (8) nodes and all ordered node pairs.", "6/C15"),
-    "C16": ("declarative IdealLog/Observes (NodeOpsProps) checked against the interpreter by TLC (Thm_C16); complete hook logs with in-hook snapshots compared on every transition", "Exhaustive within bounds; hook sequences of refused/aborted children assignments are deliberately unconstrained.", "6/C16"),
+    "C16": ("declarative IdealLog/Observes (NodeOpsProps) checked against the interpreter by TLC (Thm_C16); complete hook logs with in-hook snapshots compared on every transition; re-entrant hooks (MC_OpsRe / Thm_Re): the nested call obeys the protocol and every later per-node hook of a non-interfered call still observes what is promised", "Exhaustive within bounds; hook sequences of refused/aborted children assignments are deliberately unconstrained.", "6/C16"),
     "C17": ("the specification is the identity-only semantics; conformance of 16 adversarial class families (always-equal, never-equal, falsy, zero-length, unhashable, container-like, ordering, tripwire x both mixins) to the same TLC vectors, in lock-step with the plain class",
             "Vectors of M1 (all fault plans), M2 (navigation, util, iterators, Walker, search) and M3 (Resolver get/glob); 'all user classes' is represented by the finite family; found and repaired the leftsibling/rightsibling and glob('**') identity defects.", "6/C17"),
-    "C18": ("one specification, two implementations: both mixins replayed on the same vectors (mutators with all fault plans, and queries) and compared in lock-step", "Exhaustive within the M1/M2 bounds.", "6/C18"),
+    "C18": ("one specification, two implementations: both mixins replayed on the same vectors (mutators with all fault plans and with re-entrant hooks, and queries) and compared in lock-step", "Exhaustive within the M1/M2 bounds.", "6/C18"),
     "C19": ("CloneDef (canonical copy of the closure under parent/children/target) proved to satisfy the label-free predicate IsCopy by TLC (Thm_Clone); every (forest, family, entry node, method) vector replayed with a lock-step correspondence walk; follow-up mutations on both sides; judged by TLC (TraceClone)",
             "Exhaustive over forests <= 4 (5) nodes x 5 class families (incl. links to the same tree, another tree, another link) x deepcopy and pickle protocols 0-5.", "6/C19"),
     "C20": ("spec Attrs (Get/Set forwarding, constructor keywords, structural independence) with invariants Forwarding / LinksOwnNothing checked by TLC on all reachable states; every transition replayed on SymlinkNode / SymlinkNodeMixin x Node / AnyNode; judged by TLC (TraceAttrs); plus the M1 vectors on the link families",
